@@ -42,6 +42,8 @@ var KnownDeviations = []KnownDeviation{
 	{Scope: "optional-match-multiplies-duplicate-rows", Dev: cyref.Deviations{OptionalMatchMultipliesDuplicateRows: true, OptionalMatchJoinsOnAllBindings: true}},
 	{Scope: "exact-range-expansion-with-repeated-variable-cross-joins-node-table", Dev: cyref.Deviations{ExactRangeRepeatedVariableCrossJoinsNodes: true}},
 	{Scope: "with-clause-order-skip-limit-dropped", Dev: cyref.Deviations{WithDropsOrderSkipLimit: true}},
+	{Scope: "list-concatenation-reads-null-as-empty-list", Dev: cyref.Deviations{ListConcatenationReadsNullAsEmpty: true}},
+	{Scope: "leading-optional-match-without-match-yields-no-row", Dev: cyref.Deviations{LeadingOptionalMatchYieldsNoRow: true}},
 	{Scope: "arithmetic-and-sum-coerce-property-through-text", Dev: cyref.Deviations{ArithmeticAndSumCoerceProperty: true}},
 }
 
@@ -63,6 +65,8 @@ func merge(a, b cyref.Deviations) cyref.Deviations {
 		ArithmeticAndSumCoerceProperty:             a.ArithmeticAndSumCoerceProperty || b.ArithmeticAndSumCoerceProperty,
 		OptionalMatchJoinsOnAllBindings:            a.OptionalMatchJoinsOnAllBindings || b.OptionalMatchJoinsOnAllBindings,
 		WithDropsOrderSkipLimit:                    a.WithDropsOrderSkipLimit || b.WithDropsOrderSkipLimit,
+		ListConcatenationReadsNullAsEmpty:          a.ListConcatenationReadsNullAsEmpty || b.ListConcatenationReadsNullAsEmpty,
+		LeadingOptionalMatchYieldsNoRow:            a.LeadingOptionalMatchYieldsNoRow || b.LeadingOptionalMatchYieldsNoRow,
 		ExactRangeRepeatedVariableCrossJoinsNodes:  a.ExactRangeRepeatedVariableCrossJoinsNodes || b.ExactRangeRepeatedVariableCrossJoinsNodes,
 	}
 }
@@ -188,6 +192,11 @@ func RunC01(run *core.Run, backend *SQLBackend, queries []Query, b Bounds) {
 			run.Add("queries_rejected_by_parser", 1)
 			continue
 		}
+		q = q.withParams(m)
+		if q.Source != "enum" && countExpansions(m) >= 2 {
+			run.Add("queries_skipped_two_or_more_expansions", 1)
+			continue
+		}
 		var res translate.Result
 		if pv := core.Try(func() { res, err = translate.Translate(ctx, m, km, q.Params, 0) }); pv != nil {
 			run.Add("translator_panics_left_to_C05", 1)
@@ -205,7 +214,8 @@ func RunC01(run *core.Run, backend *SQLBackend, queries []Query, b Bounds) {
 		}
 		stmt := backend.prepare(res)
 		gm.SortLists = strings.Contains(strings.ToLower(q.Text), "collect(")
-		d := DomainFor(q.Text, b.MaxNodes, b.MaxEdges, b.Budget)
+		d := q.domain(m, b)
+		ensureKinds(km, kindIDs, d)
 		var evals, agree, outside, sqlErr, refUnknown, refErr, nonEmpty int64
 		firstOutside := ""
 		d.Enumerate(func(g *gm.Graph) bool {
@@ -293,3 +303,16 @@ func RunC01(run *core.Run, backend *SQLBackend, queries []Query, b Bounds) {
 }
 
 var outsideWhy = map[string]int64{}
+
+// countExpansions counts the variable-length relationship patterns of a query. Outside the feature grammar (whose
+// two-expansion shapes are attributed to known findings) patterns with two or more expansions are not judged: the
+// translator enforces relationship uniqueness between expansions only partly, and the exact rule is not modelled.
+func countExpansions(m *cypher.RegularQuery) int {
+	n := 0
+	cyref.WalkModel(m, func(x cypher.Expression) {
+		if rp, ok := x.(*cypher.RelationshipPattern); ok && rp.Range != nil {
+			n++
+		}
+	})
+	return n
+}
